@@ -3,6 +3,7 @@ package relays
 import (
 	"encoding/hex"
 	"fmt"
+	"strings"
 	"testing"
 
 	"pgregory.net/rapid"
@@ -37,6 +38,14 @@ type c35Env struct {
 	sbh       int64 // latest session start
 	allowance int64 // ClientSessionSyncAllowance (sessions)
 	rt        *rapid.T
+	// validator-set changes by real transactions while the world was built:
+	// selfOn21 is "" (self never staked for 0021), "joined-mid-session" (self edit-staked onto 0021 in a block after
+	// the latest session's first block: it is not in that session), "since-session-start" (self edit-staked onto
+	// 0021 and the "other" node left 0021 in the same block, at or before the session's first block: the stakers of
+	// 0021 at the session start are exactly SessionNodeCount nodes including self) or "since-session-start-undecided"
+	// (self joined at or before the session start, other stayed: SessionNodeCount+1 stakers, selection decides).
+	selfOn21 string
+	join21At int64 // block of self's edit-stake (0 = none)
 }
 
 func flipHexByte(s string) string {
@@ -119,7 +128,20 @@ var c35Alterations = []c35Alteration{
 	{name: "servicer-key-malformed", pre: func(w *relayWorld, e *c35Env, p *rf.RelayParams) { p.ServicerPub = p.ServicerPub[:60] }},
 
 	// ---- chain
-	{name: "chain-session-without-this-node", pre: func(w *relayWorld, e *c35Env, p *rf.RelayParams) { p.Chain = "0021" }},
+	{name: "chain-session-without-this-node", pre: func(w *relayWorld, e *c35Env, p *rf.RelayParams) { p.Chain = "0021" },
+		enabled: func(w *relayWorld, e *c35Env) bool { return e.selfOn21 == "" }},
+	// the servicer staked for the chain (and hosts it) NOW, but joined after the session's first block: the session
+	// was formed from the stakers at its first block, the servicer is not one of its nodes
+	{name: "servicer-joined-chain-mid-session", pre: func(w *relayWorld, e *c35Env, p *rf.RelayParams) { p.Chain = "0021" },
+		enabled: func(w *relayWorld, e *c35Env) bool { return e.selfOn21 == "joined-mid-session" }},
+	{name: "servicer-joined-chain-after-previous-session-start", pre: func(w *relayWorld, e *c35Env, p *rf.RelayParams) {
+		p.Chain, p.SessionHeight = "0021", e.sbh-w.bps
+	}, enabled: func(w *relayWorld, e *c35Env) bool {
+		return e.join21At > e.sbh-w.bps && e.allowance >= 1 && e.sbh-w.bps >= 3
+	}},
+	// ... and the other way round: joined at or before the session's first block, stakers == SessionNodeCount: in the session
+	{name: "none-servicer-joined-chain-before-session-start", valid: true, pre: func(w *relayWorld, e *c35Env, p *rf.RelayParams) { p.Chain = "0021" },
+		enabled: func(w *relayWorld, e *c35Env) bool { return e.selfOn21 == "since-session-start" }},
 	{name: "chain-not-hosted-by-node", pre: func(w *relayWorld, e *c35Env, p *rf.RelayParams) { p.Chain = "0040" }},
 	{name: "chain-not-staked-by-app", pre: func(w *relayWorld, e *c35Env, p *rf.RelayParams) { p.Chain = "0003" }},
 
@@ -138,7 +160,8 @@ var c35Alterations = []c35Alteration{
 }
 
 func TestC35(t *testing.T) {
-	floors := map[string]float64{"served": 0.9, "lean": 0.25, "non-lean": 0.25}
+	floors := map[string]float64{"served": 0.9, "lean": 0.25, "non-lean": 0.25, "validator-set-changed-mid-session": 0.3, "joiner-on-0001-mid-session": 0.2,
+		"alt:servicer-joined-chain-mid-session": 0.2, "alt:none-servicer-joined-chain-before-session-start": 0.05}
 	for _, a := range []string{"aat-signature-corrupted", "aat-unstaked-application", "aat-client-key-replaced", "client-signature-by-unnamed-key",
 		"request-hash-of-other-payload", "payload-data-changed-after-hashing", "servicer-key-of-in-session-peer", "chain-not-hosted-by-node",
 		"chain-not-staked-by-app", "chain-session-without-this-node", "session-height-beyond-tolerance", "meta-height-above-allowance", "entropy-negative"} {
@@ -146,10 +169,13 @@ func TestC35(t *testing.T) {
 	}
 	harness.Check(t, "C35",
 		"per case: a chain-simulator world (self + 1-3 in-session peers, SessionNodeCount = all 0001 stakers, blocks/session 2-4, ctx anywhere in the 2nd-4th session, "+
-			"lean / non-lean node mode, session sync allowance 0-1), the real keeper's HandleRelay with 24 relays from the relay factory, each valid or with exactly one alteration "+
+			"lean / non-lean node mode, session sync allowance 0-1) whose validator set for a chain may change by real transactions while the chain runs (self edit-stakes onto chain 0021 "+
+			"before or after the latest session's first block, with or without the other 0021 node edit-staking away in the same block; a further node stakes / edit-stakes onto 0001 mid-session), "+
+			"node session cache empty; the real keeper's HandleRelay with 24 relays from the relay factory, each valid or with exactly one alteration "+
 			"(application token signature / signer / application key / client key / version, client signature, request hash vs payload/meta, servicer key, chain not hosted / "+
-			"not staked by app / session without this node, session height, meta height, entropy); oracle: altered => error, no backend call, evidence of every header unchanged; "+
-			"unaltered => served once, response signed by the node key over the response hash, backend reply returned, exactly that proof appended once. "+
+			"not staked by app / session without this node / servicer joined the chain after the session's first block, session height, meta height, entropy); oracle: altered => error, no backend call, "+
+			"evidence of every header unchanged; unaltered (including: servicer on the chain since the session's first block) => served once, response signed by the node key over the response hash, "+
+			"backend reply returned, exactly that proof appended once. "+
 			"non-trivial = case in which at least one unaltered relay was served and at least 8 distinct alterations were rejected",
 		floors,
 		func(rt *rapid.T, c *harness.Case) {
@@ -161,7 +187,53 @@ func TestC35(t *testing.T) {
 			if stop < 5 {
 				stop = 5
 			}
-			w := newRelayWorld(rt, kBoth, bps, 30000, stop, lean, allowance)
+			// The validator set for a chain changes by real transactions while the chain runs (edit-stakes replace a
+			// node's chains in the block they are delivered in; a new node stakes). A session is formed from the nodes
+			// staked for the chain in the state of the session's first block (sbh): a change in a block <= sbh is part
+			// of the session, a change in a later block is not.
+			sbh := ((stop-1)/bps)*bps + 1
+			join21 := rapid.SampledFrom([]string{"none", "none", "before-session-start", "mid-session", "mid-session"}).Draw(rt, "selfJoins0021")
+			join01 := rapid.SampledFrom([]string{"none", "none", "new-stake", "edit-stake"}).Draw(rt, "joinerJoins0001")
+			if (join21 == "mid-session" || join01 != "none") && stop == sbh {
+				stop++ // (bps >= 2: still the same session)
+			}
+			var join21At, join01At int64
+			otherLeaves := false
+			switch join21 {
+			case "before-session-start":
+				join21At = int64(rapid.IntRange(int(sbh-bps+1), int(sbh)).Draw(rt, "join21At"))
+			case "mid-session":
+				join21At = int64(rapid.IntRange(int(sbh+1), int(stop)).Draw(rt, "join21At"))
+			}
+			if join21 != "none" {
+				otherLeaves = rapid.IntRange(0, 2).Draw(rt, "otherLeaves0021") > 0
+			}
+			if join01 != "none" {
+				// only mid-session: a 0001 staker more at the session start would make self's membership a matter of selection
+				join01At = int64(rapid.IntRange(int(sbh+1), int(stop)).Draw(rt, "join01At"))
+			}
+			opts := relayWorldOpts{KBoth: kBoth, Bps: bps, App0Stake: 30000, StopAt: stop, Lean: lean, SessionAllowance: allowance}
+			if join01 == "edit-stake" {
+				opts.JoinerGenesisChains = []string{"0050"}
+			}
+			opts.TxsAt = func(w *relayWorld, h int64) []worldTx {
+				var txs []worldTx
+				if h == join21At {
+					txs = append(txs, w.stakeTx("self", w.self, []string{"0001", "0003", "0040", "0021"}))
+					if otherLeaves {
+						txs = append(txs, w.stakeTx("other", w.other, []string{"0003"}))
+					}
+				}
+				if h == join01At {
+					chains := []string{"0001"}
+					if join01 == "edit-stake" {
+						chains = []string{"0050", "0001"}
+					}
+					txs = append(txs, w.stakeTx("joiner", w.joiner, chains))
+				}
+				return txs
+			}
+			w := newRelayWorldOpts(rt, opts)
 			defer w.close()
 			c.Opf("%s", w.desc)
 			if lean {
@@ -169,14 +241,50 @@ func TestC35(t *testing.T) {
 			} else {
 				c.Label("non-lean")
 			}
-			env := &c35Env{height: w.n.Height, sbh: w.latestSessionStart(w.n.Height), allowance: allowance, rt: rt}
+			env := &c35Env{height: w.n.Height, sbh: w.latestSessionStart(w.n.Height), allowance: allowance, rt: rt, join21At: join21At}
+			if env.sbh != sbh || env.height != stop {
+				rt.Fatalf("world ended at height %d session %d, planned %d / %d", env.height, env.sbh, stop, sbh)
+			}
+			switch {
+			case join21 == "mid-session":
+				env.selfOn21 = "joined-mid-session"
+			case join21 == "before-session-start" && otherLeaves:
+				env.selfOn21 = "since-session-start"
+			case join21 == "before-session-start":
+				env.selfOn21 = "since-session-start-undecided"
+			}
+			if env.selfOn21 != "" {
+				c.Label("self-on-0021:" + env.selfOn21)
+			}
+			if join01 != "none" {
+				c.Label("joiner-on-0001-mid-session")
+			}
+			if join21 == "mid-session" || join01 != "none" {
+				c.Label("validator-set-changed-mid-session")
+			}
+			// relays decided by the validator-set changes come first: the node's session cache is empty then (as after
+			// the once-per-session clearing, and after every edit-stake), so the session is formed by this very relay
+			var first []c35Alteration
+			for _, a := range c35Alterations {
+				if (strings.Contains(a.name, "servicer-joined-chain") || a.name == "chain-session-without-this-node") && a.enabled(w, env) {
+					first = append(first, a)
+				}
+			}
+			if join01 != "none" {
+				first = append(first, c35Alterations[0])
+			}
 			ctx := w.ctx(rt)
 			served, rejected := 0, map[string]bool{}
 			baseHdr := rf.Header(w.app0.PublicKey(), "0001", env.sbh)
 			for i := 0; i < 24; i++ {
-				alt := c35Alterations[rapid.IntRange(0, len(c35Alterations)-1).Draw(rt, "alteration")]
-				if rapid.IntRange(0, 4).Draw(rt, "forceValid") == 0 {
-					alt = c35Alterations[0]
+				var alt c35Alteration
+				if i < len(first) {
+					alt = first[i]
+				} else {
+					alt = c35Alterations[rapid.IntRange(0, len(c35Alterations)-1).Draw(rt, "alteration")]
+					if rapid.IntRange(0, 4).Draw(rt, "forceValid") == 0 {
+						alt = c35Alterations[0]
+					}
 				}
 				if alt.enabled != nil && !alt.enabled(w, env) {
 					continue
